@@ -596,3 +596,37 @@ package graph
 //@   ensures  forall(x, *distQueueItem, inq(*as(h, *distQueue), x) == old(inq(*as(h, *distQueue), x)))
 //@   ensures  forall(x, *distQueueItem, imp(!old(inq(*as(h, *distQueue), x)), x.index == old(x.index) && x.snap == old(x.snap)))
 //@   assigns  []*distQueueItem, distQueueItem.index, distQueueItem.snap
+
+// ---------------------------------------------------------------- path.go: EdgeToPath
+// The caller exhibits a rank that decreases along the predecessor map (uf
+// cord): this is what makes the walk terminate and is an OBLIGATION at the
+// call sites (a cyclic edgeTo would loop forever).
+//@ uf cord(k any) int
+//@ ghost chainOK(edgeTo HashM) bool = forall(k, any, imp(edgeTo[k] != nil, 0 <= cord(hc(edgeTo[k])) && cord(hc(edgeTo[k])) < cord(k)))
+
+//@ func (*Graph).EdgeToPath
+//@   requires chainOK(edgeTo)
+//@   ensures  [ends-at-target] imp(target != nil, len(result) > 0 && result[len(result)-1] == target)
+//@   ensures  [empty-iff-nil] imp(target == nil, len(result) == 0)
+//@   ensures  [follows-predecessors] forall(i, int, imp(0 <= i && i < len(result)-1, result[i] == edgeTo[hc(result[i+1])]))
+//@   ensures  [starts-at-root] imp(len(result) > 0, edgeTo[hc(result[0])] == nil)
+//@   ensures  [non-nil] forall(i, int, imp(0 <= i && i < len(result), result[i] != nil))
+//@   ensures  [frame] sliceskept([]Vertex) && (fresh(result) || len(result) == 0)
+//@   assigns  []Vertex
+//@   loop 1 invariant sliceskept([]Vertex) && (fresh(result) || len(result) == 0) && soff(result) == 0
+//@   loop 1 invariant imp(len(result) > 0, result[0] == target) && imp(len(result) == 0, current == target)
+//@   loop 1 invariant forall(i, int, imp(0 <= i && i < len(result), result[i] != nil))
+//@   loop 1 invariant forall(i, int, imp(0 <= i && i < len(result)-1, result[i+1] == edgeTo[hc(result[i])]))
+//@   loop 1 invariant imp(len(result) > 0, current == edgeTo[hc(result[len(result)-1])])
+//@   loop 1 decreases ite(current == nil, 0, cord(hc(current)) + 1)
+//@   loop 2 invariant sliceskept([]Vertex) && (fresh(result) || len(result) == 0) && soff(result) == 0
+//@   loop 2 invariant 0 <= left && left + right == len(result) - 1 && left <= right + 1
+//@   loop 2 invariant forall(i, int, imp(0 <= i && i < len(result), result[i] != nil))
+//@   loop 2 invariant forall(i, int, imp(left <= i && i < right, result[i+1] == edgeTo[hc(result[i])]))
+//@   loop 2 invariant forall(i, int, imp(0 <= i && i < left-1, result[i] == edgeTo[hc(result[i+1])]))
+//@   loop 2 invariant forall(i, int, imp(right < i && i < len(result)-1, result[i] == edgeTo[hc(result[i+1])]))
+//@   loop 2 invariant imp(left > 0 && left <= right, result[left-1] == edgeTo[hc(result[right])] && result[left] == edgeTo[hc(result[right+1])])
+//@   loop 2 invariant imp(left > 0 && left == right + 1, result[left-1] == edgeTo[hc(result[left])])
+//@   loop 2 invariant imp(len(result) > 0, ite(left == 0, result[0] == target && edgeTo[hc(result[len(result)-1])] == nil, result[len(result)-1] == target && edgeTo[hc(result[0])] == nil))
+//@   loop 2 invariant imp(target == nil, len(result) == 0)
+//@   loop 2 decreases right - left + 1
